@@ -4,6 +4,7 @@ import (
 	"go/ast"
 	"go/token"
 	"go/types"
+	"strings"
 )
 
 // Def is one assignment to a variable or field path inside a function.
@@ -208,6 +209,31 @@ func (f *Func) SourcesAt(e ast.Expr, at ast.Node) []Source {
 			seen[k] = true
 			defs := f.reaching(idx[p], at)
 			root := RootObj(info, x.(ast.Expr))
+			// field-wise stores into a local struct (x.f = …) also feed x
+			for fp, fdefs := range idx {
+				if strings.HasPrefix(fp, p+".") {
+					suffix := fp[len(p)+1:]
+					if field != "" && field != suffix && !strings.HasPrefix(field, suffix+".") && !strings.HasPrefix(suffix, field+".") {
+						continue
+					}
+					for _, d := range f.reaching(fdefs, at) {
+						if d.Zero || d.Rhs == nil {
+							continue
+						}
+						if c, ok := StripConv(info, d.Rhs).(*ast.CallExpr); ok && d.Idx >= 0 {
+							out = append(out, Source{Kind: "call", Call: c, Key: CalleeKey(info, c), Idx: d.Idx, Field: suffix, Expr: d.Rhs})
+						} else {
+							mark := len(out)
+							walk(d.Rhs, "", depth+1, d.Stmt)
+							for i := mark; i < len(out); i++ {
+								if out[i].Field == "" {
+									out[i].Field = suffix
+								}
+							}
+						}
+					}
+				}
+			}
 			if len(defs) == 0 {
 				if se, ok := x.(*ast.SelectorExpr); ok {
 					nf := se.Sel.Name
@@ -404,4 +430,102 @@ func (f *Func) ResultLhs(c *ast.CallExpr, i int) ast.Expr {
 		}
 	}
 	return nil
+}
+
+// SourcesOfField traces the value of base.field (base a local struct
+// variable or named result) at use point `at`: field-wise stores
+// `base.field = …` and whole-struct stores `base = T{…}` / `base = call()`.
+func (f *Func) SourcesOfField(base ast.Expr, field string, at ast.Node) []Source {
+	info := f.Info()
+	bp, ok := PathOf(info, base)
+	if !ok {
+		return []Source{{Kind: "other", Expr: base}}
+	}
+	idx := f.defsIndex()
+	var out []Source
+	for _, d := range f.reaching(idx[bp+"."+field], at) {
+		switch {
+		case d.Zero || d.Rhs == nil:
+			out = append(out, Source{Kind: "zero", Field: field})
+		default:
+			if c, ok := StripConv(info, d.Rhs).(*ast.CallExpr); ok && d.Idx >= 0 {
+				out = append(out, Source{Kind: "call", Call: c, Key: CalleeKey(info, c), Idx: d.Idx, Expr: d.Rhs})
+			} else {
+				out = append(out, f.SourcesAt(d.Rhs, d.Stmt)...)
+			}
+		}
+	}
+	// whole-struct definitions, unless a field store overwrites them on every path
+	for _, d := range f.reaching(idx[bp], at) {
+		if d.Zero || d.Rhs == nil {
+			if len(out) == 0 {
+				out = append(out, Source{Kind: "zero", Field: field})
+			}
+			continue
+		}
+		// is the whole-struct def shadowed by a later field store on all paths?
+		fieldDefs := idx[bp+"."+field]
+		if len(fieldDefs) > 0 && d.Stmt != nil && f.EnclosingLit(d.Stmt) == f.EnclosingLit(at) {
+			c := f.CFGFor(at)
+			over := func(n ast.Node) bool {
+				for _, o := range fieldDefs {
+					if o.Stmt != nil && n.Pos() <= o.Stmt.Pos() && o.Stmt.End() <= n.End() {
+						return true
+					}
+				}
+				return false
+			}
+			if !c.ReachesWithout(d.Stmt, at, over) {
+				continue
+			}
+		}
+		rhs := StripConv(info, d.Rhs)
+		if u, ok := rhs.(*ast.UnaryExpr); ok && u.Op == token.AND {
+			rhs = Unparen(u.X)
+		}
+		switch r := rhs.(type) {
+		case *ast.CompositeLit:
+			st, _ := info.TypeOf(r).Underlying().(*types.Struct)
+			found := false
+			for i, el := range r.Elts {
+				if kv, ok := el.(*ast.KeyValueExpr); ok {
+					if id, ok := kv.Key.(*ast.Ident); ok && id.Name == field {
+						out = append(out, f.SourcesAt(kv.Value, d.Stmt)...)
+						found = true
+					}
+				} else if st != nil && i < st.NumFields() && st.Field(i).Name() == field {
+					out = append(out, f.SourcesAt(el, d.Stmt)...)
+					found = true
+				}
+			}
+			if !found {
+				out = append(out, Source{Kind: "zero", Field: field})
+			}
+		case *ast.CallExpr:
+			out = append(out, Source{Kind: "call", Call: r, Key: CalleeKey(info, r), Idx: d.Idx, Field: field, Expr: d.Rhs})
+		default:
+			for _, s := range f.SourcesAt(d.Rhs, d.Stmt) {
+				if s.Field == "" {
+					s.Field = field
+				} else {
+					s.Field = s.Field + "." + field
+				}
+				out = append(out, s)
+			}
+		}
+	}
+	if len(out) == 0 {
+		if v, ok := RootObj(info, base).(*types.Var); ok && isParam(f, v) {
+			out = append(out, Source{Kind: "param", Obj: v, Field: field})
+		} else {
+			out = append(out, Source{Kind: "zero", Field: field})
+		}
+	}
+	return out
+}
+
+// DefsReaching returns the definitions of the lvalue path (PathOf string)
+// that reach node at.
+func (f *Func) DefsReaching(path string, at ast.Node) []Def {
+	return f.reaching(f.defsIndex()[path], at)
 }
